@@ -23,7 +23,7 @@ LEVEL_RULE = (
     "states = choice points + boundary targets, transitions = generator answers, traces = executions judged"
 )
 BOUNDS = {"quick": "families core slice; boundary menu for 3 units x 2 prefixes x 2 suffixes x 17 targets", "thorough": "full families; boundary menu for all units x prefixes x suffixes"}
-CASE_TIMEOUT = {"quick": 400, "thorough": 2400}
+CASE_TIMEOUT = {"quick": 900, "thorough": 3000}
 
 
 def enumerate_cases(tier, seed):
